@@ -111,9 +111,22 @@ def oracle_recovery(rng):
     if np.linalg.cond(Psi) > 100:
         return None, None
     K = np.hstack((A, B))
-    regs = [('Edmd', pykoop.Edmd(alpha=0)), ('EdmdMeta', pykoop.EdmdMeta()), ('Dmdc', pykoop.Dmdc())]
+    # every untruncated configuration: both mode types, the truncation left at its default, 'economy', or a requested
+    # rank equal to (or larger than) the full rank
+    mt = rng.choice(['exact', 'projected'])
+
+    def untrunc(full):
+        k = rng.choice(['default', 'economy', 'rank=full', 'rank>full'])
+        return k, {'default': None, 'economy': pykoop.Tsvd('economy'), 'rank=full': pykoop.Tsvd('rank', full),
+                   'rank>full': pykoop.Tsvd('rank', full + 2)}[k]
+    k1, t1 = untrunc(nx + nu)
+    k2, t2 = untrunc(nx)
+    regs = [('Edmd', pykoop.Edmd(alpha=0)), ('EdmdMeta', pykoop.EdmdMeta()),
+            (f'Dmdc(mode_type={mt}, tsvd_unshifted: {k1}, tsvd_shifted: {k2})',
+             pykoop.Dmdc(mode_type=mt, tsvd_unshifted=t1, tsvd_shifted=t2))]
     if nu == 0:
-        regs.append(('Dmd', pykoop.Dmd()))
+        k3, t3 = untrunc(nx)
+        regs.append((f'Dmd(mode_type={mt}, tsvd: {k3})', pykoop.Dmd(mode_type=mt, tsvd=t3)))
     case = {'A': A.tolist(), 'B': B.tolist(), 'X': X.tolist(), 'ep': ep, 'nu': nu, 'layout': layout, 'scale': scale}
     for name, r in regs:
         r.fit(X, n_inputs=nu, episode_feature=ep)
@@ -128,6 +141,17 @@ def oracle_recovery(rng):
     if not np.allclose(kp.regressor_.coef_, ref.coef_, rtol=1e-12, atol=1e-12):
         return 'pipeline fit differs from regressing on the lifted data', case
     return None, None
+
+
+def population_search(ctx):
+    """failing-input search over a fresh population (also used when an exception raised inside the implementation
+    ended the correspondence run early)"""
+    for i in range(300):
+        c = gen(ctx.rng)
+        why = oracle_opt(c, ctx.rng)
+        if why:
+            ctx.fail(why, c, {'regressor': 'Edmd'})
+            return
 
 
 def run(ctx):
@@ -176,12 +200,8 @@ def run(ctx):
             ctx.fail(why, case, {'part': 'recovery'})
 
     def search(ctx):
-        for i in range(300):
-            c = gen(ctx.rng)
-            why = oracle_opt(c, ctx.rng)
-            if why:
-                ctx.fail(why, c, {'regressor': 'Edmd'})
-                return
+
+        population_search(ctx)
     return ctx.finish('proof', search)
 
 
